@@ -88,7 +88,25 @@ def install(ctx):
 
 
 def fnum(rng, x):
-    """Text form of a number for the viewBox attribute."""
+    """Text form of a number for the viewBox attribute (every spelling float() and SVG accept)."""
+    if rng.random() < 0.25:
+        # hand-written spellings: no leading zero, explicit plus, trailing dot, exponent forms
+        r = repr(float(x))
+        alts = []
+        if "e" not in r and "inf" not in r:
+            ip, _, fp = r.lstrip("-").partition(".")
+            sign = "-" if x < 0 else ""
+            if ip == "0" and fp not in ("", "0"):
+                alts += [sign + "." + fp, (sign or "+") + "." + fp]
+            if fp == "0":
+                alts += [sign + ip + ".", sign + ip + "e0", sign + ip + ".0E+0"]
+            if x > 0:
+                alts.append("+" + r)
+            if x != 0 and abs(x) < 1e15:
+                alts.append("%se-1" % repr(float(x) * 10) if float("%se-1" % repr(float(x) * 10)) == x else r)
+        alts = [a for a in alts if _same(a, x)]
+        if alts:
+            return rng.choice(alts)
     c = rng.randrange(4)
     if c == 0 and x == int(x):
         return str(int(x))
@@ -97,6 +115,13 @@ def fnum(rng, x):
     if c == 2:
         return "%.6g" % x if float("%.6g" % x) == x else repr(float(x))
     return "%e" % x if float("%e" % x) == x else repr(float(x))
+
+
+def _same(text, x):
+    try:
+        return float(text) == x
+    except ValueError:
+        return False
 
 
 def vary_case(rng, s):
@@ -126,13 +151,14 @@ def gen_valid(rng):
         if (doc_h / doc_w) != (h / w):
             doc_w, doc_h = w, h
     elif rel == "ar_doc<ar_vb":
-        doc_h = doc_w * (h / w) * rng.uniform(0.05, 0.999)
+        doc_h = doc_w * (h / w) * (rng.uniform(0.05, 0.999) if rng.random() < 0.8 else 1 - 10 ** rng.uniform(-7, -3))
     else:
-        doc_h = doc_w * (h / w) * rng.uniform(1.001, 20)
+        doc_h = doc_w * (h / w) * (rng.uniform(1.001, 20) if rng.random() < 0.8 else 1 + 10 ** rng.uniform(-7, -3))
     if isinstance(doc_w, int) and rng.random() < 0.5 and rel != "ar_doc==ar_vb":
         doc_h = max(1, int(doc_h))
     ar_doc, ar_vb = Fraction(doc_h) / Fraction(doc_w), Fraction(h) / Fraction(w)
     rel = "ar_doc<ar_vb" if ar_doc < ar_vb else ("ar_doc==ar_vb" if ar_doc == ar_vb else "ar_doc>ar_vb")
+    near = ar_doc != ar_vb and abs(ar_doc / ar_vb - 1) < Fraction(1, 1000)
     sep = rng.choice((" ", ",", ", ", "  ", " , ", "\t", "\n "))
     vb_text = sep.join(fnum(rng, v) for v in (min_x, min_y, w, h))
     if rng.random() < 0.3:
@@ -158,7 +184,7 @@ def gen_valid(rng):
         if rng.random() < 0.2:
             par = " " + par + " "
         cell = align if align == "none" else "%s %s" % (align, mos)
-    return (min_x, min_y, w, h), vb_text, par, align, mos, doc_w, doc_h, "%s | %s" % (cell, rel)
+    return (min_x, min_y, w, h), vb_text, par, align, mos, doc_w, doc_h, "%s | %s" % (cell, rel), near
 
 
 def gen_malformed(rng):
@@ -207,7 +233,7 @@ def run(ctx):
             desc = {"args": [vb_text, par, doc_w, doc_h], "identity": True, "class": cls}
             ctx.case([cls], (vb_text, par, doc_w, doc_h), nontrivial=False)
         else:
-            vb, vb_text, par, align, mos, doc_w, doc_h, cell = gen_valid(rng)
+            vb, vb_text, par, align, mos, doc_w, doc_h, cell, near = gen_valid(rng)
             desc = {"args": [vb_text, par, doc_w, doc_h], "identity": False, "class": cell,
                     "vb": list(vb), "align": align, "mos": mos}
             classes = [cell]
@@ -215,6 +241,13 @@ def run(ctx):
                 classes.append("defer")
             if "," in vb_text:
                 classes.append("comma separators")
+            if near:
+                classes.append("aspect ratios differ by less than 1e-3 (but differ)")
+            toks = vb_text.replace(",", " ").split()
+            if any(t.lstrip("+-").startswith(".") for t in toks):
+                classes.append("number without a leading zero")
+            if any(t.startswith("+") for t in toks):
+                classes.append("number with an explicit plus")
             ctx.case(classes, (vb_text, par, doc_w, doc_h))
         ctx.sample({"viewBox": vb_text, "preserveAspectRatio": desc["args"][1], "doc": [doc_w, doc_h],
                     "class": desc["class"]}, tag=desc["class"].split(" | ")[0], per_tag=1)
@@ -235,6 +268,9 @@ def run(ctx):
               "zero or negative viewBox size", "non-positive page size"):
         ctx.need("malformed:" + m, 50)
     ctx.need("defer", 300)
+    ctx.need("aspect ratios differ by less than 1e-3 (but differ)", 300)
+    ctx.need("number without a leading zero", 100)
+    ctx.need("number with an explicit plus", 100)
     ctx.need("monitor:vb_scale evaluated", 20_000)
     contracts.uninstall_all()
 
